@@ -282,7 +282,7 @@ def is_invoa_drift(ej, tj, d):
     o = next((e for e in tj['elements'] if e['uid'] == d['path'][0]), {})
     iv = (o.get('operational') or {}).get('in_voa') or 0
     return o.get('type') == 'Edfa' and not o.get('type_variety') and iv > 0 \
-        and (o.get('operational') or {}).get('gain_target') is not None and 0 < d['first'] - d['second'] <= iv + 1e-6
+        and (o.get('operational') or {}).get('gain_target') is not None and 0 < d['first'] - d['second'] <= iv + 2.5e-6   # (both figures are rounded to 6 decimals by the export)
 
 
 def classify_exception(e, tbs, ctx):
